@@ -77,11 +77,16 @@ Reload == Flush
 \* -------------------------------------------------------------- search
 Probes(p) == IF p <= 0 \/ p > NList THEN NList ELSE p
 
-\* admissible probe sets: pp clusters, none of which is beaten (beyond EpsC) by an excluded one
+\* admissible probe sets: pp clusters, none of which is beaten (beyond EpsC) by an excluded one.  Enumerated from the clusters
+\* that are surely probed and those that may be (every admissible set lies between the two), so that 32 clusters cost nothing.
 ProbeSets(q, p) ==
   IF ~Clustered \/ Probes(p) = NList THEN {1..NList}
-  ELSE {P \in SUBSET (1..NList) : /\ Cardinality(P) = Probes(p)
-                                  /\ \A a \in P : \A b \in (1..NList) \ P : QC[q][a] <= QC[q][b] + EpsC}
+  ELSE LET pp == Probes(p)
+           All == 1..NList
+           SureC == {c \in All : Cardinality({d \in All : QC[q][d] <= QC[q][c] + EpsC}) <= pp}
+           MayC  == {c \in All : Cardinality({d \in All : QC[q][d] < QC[q][c] - EpsC}) < pp}
+           Cands == {SureC \cup X : X \in {Y \in SUBSET (MayC \ SureC) : Cardinality(Y) = pp - Cardinality(SureC)}}
+       IN {P \in Cands : \A a \in P : \A b \in All \ P : QC[q][a] <= QC[q][b] + EpsC}
 
 InFilter(id, filt) == filt = {} \/ id \in filt
 
